@@ -20,6 +20,8 @@ def run(ctx, rep):
     rep.rule("R14.4", "a waiter cannot sleep through the hand-off: try-acquire and wait() are atomic under the condition, all waiters "
                       "are woken after the release on every exit (= R13.1, R13.4)")
     rep.rule("R14.3", "a thread that loses the try-lock sleeps on the condition (with the remaining time), not on the channel")
+    rep.rule("R14.5", "the reply can be routed the moment it arrives: the requester is registered before its request is transmitted (= R08.4)")
+    K.share(ctx, rep, "c08", lambda o: o.rule == "R08.4", "R14.5", floor=2)
     rep.assume("the actual latency is not decided, only the ordering that causes the stall")
 
     from .c13 import blocking_lock_escape
